@@ -3,7 +3,7 @@ From Coq Require Import List String.
 From VQ.Gen Require Import w_cosine.
 Import ListNotations.
 Open Scope string_scope.
-Lemma pin_w_cosine : w_cosine =
+Definition pinned_w_cosine : list string :=
   ["CosineSimCodebook.forward:embed_onehot:setitem";
    "CosineSimCodebook.forward:self:expire_codes_";
    "CosineSimCodebook.forward:self:init_embed_";
@@ -15,4 +15,5 @@ Lemma pin_w_cosine : w_cosine =
    "CosineSimCodebook.replace:self.embed.data[ind]:setitem";
    "CosineSimCodebook.replace:self.embed_avg.data[ind]:setitem";
    "CosineSimCodebook.update_ema:self.embed.data:copy_"].
+Lemma pin_w_cosine : w_cosine = pinned_w_cosine.
 Proof. reflexivity. Qed.
